@@ -148,6 +148,10 @@ impl Interpreter {
         // That feels like overkill so for now we're just doing this.
         match first_word.to_ascii_uppercase().as_str() {
             "RUN" => {
+                // Discard any reply that was provided for an `INPUT` but never
+                // consumed (e.g. because the program was interrupted first), so
+                // it can't leak into the new run.
+                self.input = None;
                 self.variables = Variables::default();
                 self.arrays = Arrays::default();
                 self.program.run_from_first_numbered_line();
